@@ -178,6 +178,12 @@ class C02(Check):
         dec_rad = np.deg2rad(cols["dec"].astype("f8")) if case["degrees"] else cols["dec"].astype("f8")
         xyz = gen.radec_to_xyz(ra_rad, dec_rad)
         nearest, margin = cats.nearest_centre(xyz, centres)
+        if case["weights"] and mode != "generate" and source != "random" and cols["w"].dtype.kind == "f":
+            # a masked object (weight exactly zero, still a unique id) is a record like any other; it sits in a
+            # patch with further objects (a patch of zero total weight has no mean direction)
+            sizes = np.bincount(nearest, minlength=len(centres))
+            if sizes.max() >= 3:
+                cols["w"][np.flatnonzero(nearest == int(np.argmax(sizes)))[0]] = 0.0
         if mode == "index":
             pid_true = nearest.copy()
             # make sure the indices are contiguous from 0
